@@ -21,7 +21,8 @@ TRUSTED = TRUSTED_M2
 def gen(seed, index):
     rng = rng_for(PID, seed, index)
     unit = rng.choice([2500000000, 5000000000, 10000000000])
-    mixed = rng.random() < 0.12
+    mixed = rng.random() < 0.16
+    steps = mixed and rng.random() < 0.5     # every trajectory of the tree is a step curve (piecewise constant, jumps in between)
     p_const = rng.choice([0.0, 0.3, 0.5, 0.8])
     p_traj = rng.choice([0.0, 0.15, 0.3])
 
@@ -34,8 +35,19 @@ def gen(seed, index):
                 e[2][1] = g.hexf(rng.choice([30, 90, 120]))
         return e
 
+    def step_curve(span):
+        n = rng.randint(2, 4)
+        u = max(1, span // n // 2)
+        pts = []
+        for i in range(n):
+            b = g.hexf(rng.choice([30, 40, 60, 90, 120, 240]))
+            pts += [[rng.randint(1, 3) * u, b, g.hexf(0)], [0, b, g.hexf(0)]]
+        return ["J"] + pts
+
     def tempo(has_traj, span):
         r = rng.random()
+        if steps and r < max(p_traj, 0.3) and span > 0:
+            return step_curve(span), True
         if r < p_traj and (mixed or not has_traj) and span > 0:
             n = rng.randint(2, 4)
             GE = g.GE(rng, kind="T", unit=max(1, span // n // 2), shapes=[0, 0.5, -0.5, 1, -1, 2, -2], last_positive=False, jumps=rng.choice([0, 0.2]))
@@ -67,7 +79,9 @@ def gen(seed, index):
             kids.append(k)
             durs.append(d)
         span = sum(durs) if kind == "S" else max(durs)
-        if node_traj:
+        if steps and rng.random() < 0.5:
+            tp = step_curve(span)
+        elif node_traj:
             nn = rng.randint(2, 4)
             GE = g.GE(rng, kind="T", unit=max(1, span // nn // 2), shapes=[0, 0.5, -0.5, 1, -1, 2, -2], last_positive=False, jumps=rng.choice([0, 0.2]))
             tp = ["J"] + primo(GE.env(nn))[1:]
@@ -203,7 +217,9 @@ def expected_any_nesting(t):
                 tot += (ys[0] + ys[-1] + 4 * sum(ys[1:-1:2]) + 2 * sum(ys[2:-1:2])) * (h / TICK) / 3
             # two trajectories on one path: the implementation re-times the inner trajectory's control points through the
             # outer conversion (the interpolation between them is not the exact composition); the property does not decide it
-            out.append((const * tot, max([s_ for (_, _, s_) in envs] + [1])) if len(envs) <= 1 else None)
+            # ... unless all of them are step curves: every piece of the leaf then lies under constant tempi, which multiply
+            decided = len(envs) <= 1 or all(is_step(env) for (env, _, _) in envs)
+            out.append((const * tot, max([s_ for (_, _, s_) in envs] + [1])) if decided else None)
             return
         o = off
         for c in n[2:]:
@@ -213,6 +229,12 @@ def expected_any_nesting(t):
 
     walk(t, 0, 1.0, [])
     return out
+
+
+def is_step(env):
+    """piecewise constant: every segment of positive length joins two equal values"""
+    pts = env[1:]
+    return all(int(p[0]) == 0 or fl(p[1]) == fl(q[1]) for p, q in zip(pts, pts[1:]))
 
 
 def spans_t(t, off=0):
